@@ -126,6 +126,11 @@ func GetBreakpoint(node any) (int, error) {
 			if ppl.LineFormat != nil {
 				return i, nil
 			}
+			// the ClickHouse planner has no label_format stage (it used to skip it silently: the query ran
+			// as if the stage were not there); the in-process engine has one
+			if ppl.LabelFormat != nil {
+				return i, nil
+			}
 		}
 		return BreakpointNo, nil
 	}
